@@ -134,13 +134,13 @@ Section Db.
         k0 <- branch_key [p0] ;;     (* the root's own key: an identifier that spells an inner key is refused *)
         if negb (has_key k0 d) then Ok d
         else match rest with
-             | [] => delete_sub_tree (S (length d)) k0 d
+             | [] => delete_sub_tree (4 + length d) k0 d
              | _ =>
                  (* the code computes the keys inside the loop, leaf first; a path whose full key
                     passes the divider guard has only prefixes that pass it, so computing all
                     keys first (leaf first) raises exactly when the code raises, before any change *)
                  ks <- keys_of (prefixes_rev [] path []) ;;
-                 delete_up (S (length d)) ks None d
+                 delete_up (4 + length d) ks None d
              end
     end.
 
@@ -191,8 +191,8 @@ Section Db.
     let p := match level with None => path | Some l => firstn (S l) path end in
     match level with
     | Some l => if Nat.ltb (length path) l then Err ValueError else
-                  k <- branch_key p ;; revoke_tree (S (length d)) k d
-    | None => k <- branch_key p ;; revoke_tree (S (length d)) k d
+                  k <- branch_key p ;; revoke_tree (4 + length d) k d
+    | None => k <- branch_key p ;; revoke_tree (4 + length d) k d
     end.
 
   (* ---- operations of the C14 history alphabet ---- *)
